@@ -179,6 +179,14 @@ func instrWriteKeys(blocks []*ssa.BasicBlock, only map[*ssa.BasicBlock]bool, see
 						}
 					}
 				case *ssa.Function:
+					if g.String() == "sort.Slice" {
+						if mi, ok := x.Call.Args[0].(*ssa.MakeInterface); ok {
+							if sl, ok := mi.X.Type().Underlying().(*types.Slice); ok && !freshBaseIn(mi.X, map[ssa.Value]bool{}, only) {
+								out["A|"+typeKey(sl.Elem())+"|"] = true
+							}
+						}
+						continue
+					}
 					if isHashmapMethod(g, "Put") || isHashmapMethod(g, "Remove") {
 						out["C|hashmap|"] = true
 					}
